@@ -149,6 +149,21 @@ def state_term(case, observe, tables, jac=None, with_jac=True, mode=7):
     return "num_state %s %s %s %s %s %s" % (cnatm(mode), cu2, floor2, k2max, eps2, o)
 
 
+def own_resid_term(case, observe, tables):
+    """Coq term num_own_resid ...: residuals shown vs W (Y - Phi C) for the coefficients shown — any shape, any rank"""
+    if observe["resid"] is None or observe["coef"] is None or tables["phi"] is None:
+        return None
+    if not all_finite_mat(tables["phi"]) or not all_finite_mat(observe["coef"]) or not all(is_finite_hex(h) for h in observe["resid"]):
+        return None
+    m = case["meta"]
+    w = weights_of(case)
+    cu2, floor2, _ = params_for(case["scalar"])
+    o = ("{| so_n := %s; so_m := %s; so_w := %s; so_Phi := %s; so_Y := %s; so_Ds := [::]; so_C := %s; so_R := %s; so_J := None |}"
+         % (cnatm(m["N"]), cnatm(m["M"]), "None" if w is None else "(Some %s)" % vec(w), mat(tables["phi"]), mat_cols(obs_of(case)),
+            mat(observe["coef"]), vec(observe["resid"])))
+    return "num_own_resid %s %s %s" % (cu2, floor2, o)
+
+
 STATE_CODES = {1: "rank deficient or too ill-conditioned for the tolerance rule (not compared)", 2: "shapes differ",
                3: "coefficients are not the weighted least-squares solution",
                4: "residuals are not W(Y - Phi C) for the least-squares coefficients",
